@@ -1796,6 +1796,38 @@ fn emit_calls(seed: u64, tier: Tier, unit: u64, sink: &mut dyn FnMut(Plan) -> bo
             // a union whose settlement side never opens on a business day (business Mon-Fri,
             // settlement calendar working Sat/Sun only): legal as long as nobody asks for
             // settlement, so these sweeps run with the settlement flag off only
+            // calendars with no business day at all (closed seven days; a union of
+            // complementary masks): business-day addition from any date is an immediate
+            // refusal, for every count - nothing else is asked of them
+            if which == 1 && r.chance(0.06) {
+                let closed = if r.chance(0.5) {
+                    CalChoice::Cal(CalSpec { holidays: vec![], mask: vec![0, 1, 2, 3, 4, 5, 6] })
+                } else {
+                    CalChoice::Union(UnionSpec {
+                        members: vec![
+                            CalSpec { holidays: vec![], mask: vec![0, 1, 2, 3] },
+                            CalSpec { holidays: vec![], mask: vec![4, 5, 6] },
+                        ],
+                        settle: if r.chance(0.5) { Some(vec![CalSpec { holidays: vec![], mask: vec![0, 1, 2, 3, 4, 5, 6] }]) } else { None },
+                    })
+                };
+                for settlement in [false, true] {
+                    if !sink(Plan::Call(CallSpec::DateSweep {
+                        cal: closed.clone(),
+                        date,
+                        func: DateFn::AddBusDays,
+                        modifier: 0,
+                        settlement,
+                        roll: RollSpec::Unspecified,
+                        counts: all_i8(),
+                        makeup: vec![],
+                        opens_on: None,
+                    })) {
+                        return;
+                    }
+                }
+                return;
+            }
             let never_settles = !giant.get() && r.chance(0.04);
             let cal = if never_settles {
                 CalChoice::Union(UnionSpec {
@@ -2075,6 +2107,16 @@ fn emit_calls(seed: u64, tier: Tier, unit: u64, sink: &mut dyn FnMut(Plan) -> bo
                 }
                 sink(Plan::Call(CallSpec::NamedCal(s)));
             }
+            // very long lists (thousands of names on one side of the pipe), good and with a
+            // bad last name
+            if (unit / 10) % 4 == 0 {
+                for n in [2_000usize, 20_000, 60_000] {
+                    let good = vec!["bus"; n].join(",");
+                    sink(Plan::Call(CallSpec::NamedCal(good.clone())));
+                    sink(Plan::Call(CallSpec::NamedCal(format!("{},zzz", good))));
+                    sink(Plan::Call(CallSpec::NamedCal(format!("tgt|{}", good))));
+                }
+            }
             for odd in ["İ|tgt", "\u{212A}|", "st\u{212A}|tgt", "tgt|st\u{212A}", "İİ|İ", "Ⱥ|Ⱥ", "ẞ,tgt|ldn"] {
                 sink(Plan::Call(CallSpec::NamedCal(odd.to_string())));
             }
@@ -2207,16 +2249,18 @@ fn emit_calls(seed: u64, tier: Tier, unit: u64, sink: &mut dyn FnMut(Plan) -> bo
                         preset_share: false,
                     };
                     let n = t.len() - k;
-                    for ntau in [0usize, n, n + 1] {
+                    for ntau in [0usize, n, n + 1, n + 2] {
                         for allow_lsq in [false, true] {
-                            sink(Plan::Call(CallSpec::Csolve {
-                                spec: spec.clone(),
-                                tau: (0..ntau).map(|i| Fx::new(t[0] + 0.1 * i as f64)).collect(),
-                                y: (0..ntau).map(|_| Num::F(Fx::new(1.5))).collect(),
-                                left_n: 0,
-                                right_n: 0,
-                                allow_lsq,
-                            }));
+                            for (left_n, right_n) in [(0usize, 0usize), (1, 0), (0, 1), (2, 2), (k + 1, 0)] {
+                                sink(Plan::Call(CallSpec::Csolve {
+                                    spec: spec.clone(),
+                                    tau: (0..ntau).map(|i| Fx::new(t[0] + 0.1 * i as f64)).collect(),
+                                    y: (0..ntau).map(|_| Num::F(Fx::new(1.5))).collect(),
+                                    left_n,
+                                    right_n,
+                                    allow_lsq,
+                                }));
+                            }
                         }
                     }
                 }
@@ -2342,6 +2386,31 @@ fn emit_calls(seed: u64, tier: Tier, unit: u64, sink: &mut dyn FnMut(Plan) -> bo
                     right_n: r.usize_in(0, spec.k + 1),
                     allow_lsq: r.chance(0.4),
                 }));
+                // least squares on site sets that make the normal equations singular exactly:
+                // the distinct knots each repeated, all sites equal, the first knots only
+                {
+                    let tt: Vec<f64> = spec.t.iter().map(|x| x.get()).collect();
+                    let mut knots = tt.clone();
+                    knots.dedup();
+                    let y0 = good.y.first().cloned().unwrap_or(Num::F(Fx::new(1.5)));
+                    let mut patterns: Vec<Vec<f64>> = Vec::new();
+                    patterns.push(knots.iter().flat_map(|x| [*x, *x]).collect());
+                    patterns.push(knots.iter().flat_map(|x| [*x, *x, *x]).collect());
+                    patterns.push(vec![tt[0]; n + 2]);
+                    patterns.push(knots.iter().take((n / 2).max(1)).flat_map(|x| vec![*x; 4]).collect());
+                    for sites in patterns {
+                        for (left_n, right_n) in [(0usize, 0usize), (1, 1)] {
+                            sink(Plan::Call(CallSpec::Csolve {
+                                spec: spec.clone(),
+                                y: vec![y0.clone(); sites.len()],
+                                tau: sites.iter().map(|x| Fx::new(*x)).collect(),
+                                left_n,
+                                right_n,
+                                allow_lsq: true,
+                            }));
+                        }
+                    }
+                }
                 // every combination of site-count and value-count around n and around each
                 // other, with and without least squares
                 if n <= 8 {
